@@ -172,6 +172,29 @@ def _run(ctx):
             if len(items) == 2:
                 eq(ctx, "R5", f"{k}: vector of whole-number wavelengths, element {j} = scalar call at that wavelength",
                    items[j], scal_i[j][k], site, nonzero=[rho * Me])
+    # ... the same for a compound without an energy-dependent isotope (every per-atom term is a scalar there)
+    comps_ = {Ae["element"]: q[0], Ae["element2"]: q[1]}
+    scal_s = [spec.unpack(Ie.call(nse, [dict(comps_)], {"density": rho, "wavelength": l})) for l in whole]
+    gvecs = spec.unpack(Ie.call(nse, [dict(comps_)], {"density": rho, "wavelength": Vec(whole)}))
+    for k in spec.OUTPUTS:
+        v = gvecs[k]
+        items = list(v.items) if isinstance(v, Vec) else [v, v]
+        for j in (0, 1):
+            if len(items) == 2:
+                eq(ctx, "R5", f"{k}: vector of whole-number wavelengths, compound of energy-independent atoms, element {j} = scalar call",
+                   items[j], scal_s[j][k], site, nonzero=[rho * (q[0] * mass_sym("Fe") + q[1] * mass_sym("O"))])
+    # a vector of one wavelength (or one energy) is still a vector: one-element vectors come back, not scalars
+    for how, kw1, ref in (("wavelength=[lam]", {"wavelength": Vec([lams[0]])}, {"wavelength": lams[0]}),
+                          ("energy=[E]", {"energy": Vec([E])}, {"energy": E})):
+        one = spec.unpack(Ie.call(nse, [dict(comps_)], dict(kw1, density=rho)))
+        ref_ = spec.unpack(Ie.call(nse, [dict(comps_)], dict(ref, density=rho)))
+        for k in spec.OUTPUTS:
+            v = one[k]
+            ctx.check(isinstance(v, Vec) and len(v.items) == 1, "R5", f"{k}: {how} returns a vector of one entry",
+                      f"returned {_s(v)} ({'a scalar' if not isinstance(v, Vec) else 'length %d' % len(v.items)})", site)
+            if isinstance(v, Vec) and len(v.items) == 1:
+                eq(ctx, "R5", f"{k}: {how}, the entry = scalar call", v.items[0], ref_[k], site,
+                   nonzero=[rho * (q[0] * mass_sym("Fe") + q[1] * mass_sym("O"))])
     # R3 again, for a compound with an energy-dependent isotope (its scattering length is looked up in a table: the
     # lookup must be the same whichever of energy= / wavelength= named the beam)
     EFe = Ie.global_name("nsf", "ENERGY_FACTOR")
